@@ -3,7 +3,8 @@
    [W : water] are the four CoolProp-backed water-property functions of (T degC, P MPa): every theorem holds for ALL of
    them; [i : hin] are the parameter values Calculate starts from; [hip_err W i = None] means the run raises nothing. *)
 From Coq Require Import QArith Qabs Qminmax List ZArith Bool String.
-From Verif Require Import Base.Flat Gen.HipTables Model.HipRa Spec.HipRaSpec Proofs.HipRaProofs.
+From Verif Require Import Base.Flat Gen.HipTables Model.Fmt Model.HipRa Model.HipReport Spec.HipRaSpec
+     Proofs.HipRaProofs Proofs.HipReportProofs Proofs.HipPartialProofs.
 Import ListNotations.
 Open Scope Q_scope.
 
@@ -125,6 +126,109 @@ Theorem C17_scaling_checker_sound : forall tol k mask base scaled',
 Proof. exact chk_scaled_sound. Qed.
 Print Assumptions C17_scaling_checker_sound.
 
+(* ---- the mass triple is NOT additive as published (excluded from the property), and what does hold ---- *)
+(* "Mass of Reservoir (fluid)" is overwritten with the produced mass stored/h_net, so rock + fluid exceeds the total
+   that was computed before the overwrite: refuted on the shipped example (in range, Tres > Trej, no error) *)
+Theorem C17_mass_additivity_refuted :
+  exists W i, in_range i /\ hip_err W i = None /\ i_Trej i < i_Tres i /\
+              let o := hip_out W i in
+              o_mass_rock o + o_mass_fluid o > o_mass_total o /\
+              ~ o_mass_total o == o_mass_rock o + o_mass_fluid o.
+Proof. exact mass_additivity_refuted. Qed.
+Print Assumptions C17_mass_additivity_refuted.
+
+(* the published triple adds up exactly when the rock part of the stored heat is zero *)
+Theorem C17_mass_additivity_partial : forall W i, hip_err W i = None ->
+  let o := hip_out W i in
+  (o_mass_total o == o_mass_rock o + o_mass_fluid o <-> o_stored_rock o == 0).
+Proof. exact mass_additivity_partial. Qed.
+Print Assumptions C17_mass_additivity_partial.
+
+(* what the published fluid mass is (the total obeys total = rock + fluid volume x density: C17_stored_sum) *)
+Theorem C17_mass_fluid_published : forall W i, hip_err W i = None ->
+  let o := hip_out W i in
+  o_mass_fluid o == o_vol_fluid o * o_fdens o + o_stored_rock o / c_hnet W i.
+Proof. exact mass_fluid_published. Qed.
+Print Assumptions C17_mass_fluid_published.
+
+(* ---- hip_ra_x.main() when Calculate raises: it logs, then prints the outputs as they stand ---- *)
+(* [published W i]: the 25 figures main() goes on to print (assigned-so-far values, 0 for the rest); equal to the
+   results when nothing is raised *)
+Theorem C17_published_when_ok : forall W i, hip_err W i = None -> published W i = hout_list (hip_out W i).
+Proof. exact published_ok. Qed.
+Print Assumptions C17_published_when_ok.
+
+(* the in-range inputs porosity 100, area 0 and temperature above 600 C do raise *)
+Theorem C17_porosity_100_raises : forall W i,
+  i_por i == 100 -> c_fhc_derived i = false \/ (0 <= i_Tres i <= 600) -> err_site_of W i = Some SiteMassRock.
+Proof. exact raises_porosity_100. Qed.
+Print Assumptions C17_porosity_100_raises.
+
+Theorem C17_area_0_raises : forall W i,
+  i_area i == 0 -> c_fhc_derived i = false \/ (0 <= i_Tres i <= 600) -> err_site_of W i = Some SiteMassRock.
+Proof. exact raises_area_0. Qed.
+Print Assumptions C17_area_0_raises.
+
+Theorem C17_above_600_raises : forall W i, 600 < i_Tres i -> exists s, err_site_of W i = Some s.
+Proof. exact raises_above_600. Qed.
+Print Assumptions C17_above_600_raises.
+
+(* ... and whatever is then printed still satisfies the volume and additivity clauses (for EVERY input and error site) *)
+Theorem C17_partial_report_additive : forall W i,
+  let p := published W i in
+  nth 0 p 0 == i_area i * i_thick i /\
+  nth 1 p 0 == (1 - i_por i / 100) * nth 0 p 0 /\
+  nth 2 p 0 == (i_por i / 100) * i_rff i * nth 0 p 0 /\
+  nth 15 p 0 == nth 13 p 0 + nth 14 p 0.
+Proof. exact published_additive. Qed.
+Print Assumptions C17_partial_report_additive.
+
+(* ... and the cascade under the hypotheses of C17_cascade_partial: a partial report never shows producible >
+   available > stored; it shows zeros without an error status, which no clause of C17 forbids *)
+Theorem C17_partial_report_cascade : forall W i,
+  in_range i -> i_Trej i < i_Tres i -> water_signs W i ->
+  let p := published W i in
+  (hip_err W i = None \/ ~ c_mass_rock i == 0 \/ nth 15 p 0 == 0) /\
+  nth 16 p 0 <= nth 15 p 0 /\ nth 17 p 0 <= nth 16 p 0 /\ 0 <= nth 17 p 0.
+Proof. exact published_cascade. Qed.
+Print Assumptions C17_partial_report_cascade.
+
+(* ---- the report and the client ---- *)
+(* every line the report writer produces for a value q, in either format, with any label without ':' / outer blanks
+   and any unit without blanks, is parsed by the client (HipRaResult) as exactly that label, the printed value and
+   that unit (None for an empty unit) *)
+Theorem C17_report_line_parses : forall label unit k q,
+  label_ok_b label = true -> no_space unit = true ->
+  parse_line (hip_line label (render k (Fin q) unit)) = Some (label, printed k q, unit_opt unit).
+Proof. exact hip_line_parses. Qed.
+Print Assumptions C17_report_line_parses.
+
+(* line k of SUMMARY OF RESULTS, with the labels and units regenerated from the current source: label, value of the
+   result it is about in the stated format, unit - and the client returns exactly those.  [published] covers the
+   normal report and the partial one. *)
+Theorem C17_report_states_results : forall W i k idx kind,
+  nth_error (result_rows (i_depth_given i) (i_pres_given i)) k = Some (idx, kind) ->
+  exists line,
+    nth_error (section_lines (result_rows (i_depth_given i) (i_pres_given i)) hip_out_names (map Fin (published W i))) k = Some line /\
+    parse_line line = Some (fst (name_at hip_out_names idx), printed kind (nth idx (published W i) 0),
+                            unit_opt (snd (name_at hip_out_names idx))).
+Proof. exact report_states_published. Qed.
+Print Assumptions C17_report_states_results.
+
+Theorem C17_report_states_inputs : forall dg pg vals k idx kind q,
+  nth_error (input_rows dg pg) k = Some (idx, kind) -> nth idx vals (Fin 0) = Fin q ->
+  exists line, nth_error (section_lines (input_rows dg pg) hip_in_names vals) k = Some line /\
+               parse_line line = Some (fst (name_at hip_in_names idx), printed kind q, unit_opt (snd (name_at hip_in_names idx))).
+Proof. exact inputs_section_states_values. Qed.
+Print Assumptions C17_report_states_inputs.
+
+(* the printed value of a '10.2f' line is the quantity (x100 for the recovery factor) rounded to two decimals *)
+Theorem C17_printed_fixed_is_rounded : forall q,
+  Qabs (printed KFix q - q) <= (1#2) / inject_Z (pow10 2) /\
+  Qabs (printed KPct q - 100 * q) <= (1#2) / inject_Z (pow10 2).
+Proof. exact printed_fixed_close. Qed.
+Print Assumptions C17_printed_fixed_is_rounded.
+
 (* ---- non-vacuity: the hypotheses above are satisfiable, on the shipped example (250 C / 60 C) ---- *)
 Definition example_input : hin :=
   {| i_Tres := 250; i_Trej := 60; i_por := 10; i_area := 55; i_thick := 1#4; i_life := 25;
@@ -150,3 +254,18 @@ Proof. eexists. split; [vm_compute; reflexivity | reflexivity]. Qed.
 Example C17_example_checker :
   chk_scaled 0 2 [true; false] [3; 5] [6; 5] = true /\ chk_scaled 0 2 [true; false] [3; 5] [6; 10] = false.
 Proof. split; vm_compute; reflexivity. Qed.
+Example C17_example_line :
+  string_of_list_ascii (hip_line (chars "Stored Heat (rock)") (render KSci (Fin (3880000000000000#1)) (chars "kJ")))
+    = "      Stored Heat (rock):        3.88e+15 kJ"%string /\
+  exists v, parse_line (chars "      Stored Heat (rock):        3.88e+15 kJ") = Some (chars "Stored Heat (rock)", v, Some (chars "kJ")) /\
+            v == 3880000000000000#1.
+Proof. split; [vm_compute; reflexivity|]. eexists. split; vm_compute; reflexivity. Qed.
+Example C17_example_row : nth_error (result_rows false false) 13 = Some (18%nat, KPct) /\ label_ok_b (chars "Recovery Factor (reservoir)") = true.
+Proof. split; reflexivity. Qed.
+Example C17_example_partial :
+  err_site_of example_water (set_field 2 100 example_input) = Some SiteMassRock /\
+  nth 0 (published example_water (set_field 2 100 example_input)) 0 == 55 # 4 /\
+  nth 15 (published example_water (set_field 2 100 example_input)) 0 == 0.
+Proof. repeat split; vm_compute; reflexivity. Qed.
+Example C17_example_mass : hip_err mass_witness_water mass_witness_input = None /\ ~ o_stored_rock (hip_out mass_witness_water mass_witness_input) == 0.
+Proof. split; [vm_compute; reflexivity | vm_compute; discriminate]. Qed.
